@@ -81,6 +81,11 @@ fn main() {
                 }
             }
         }
+        "transcript" => {
+            let seed: u64 = args[2].parse().unwrap_or(1);
+            let tier = if args[3] == "thorough" { Tier::Thorough } else { Tier::Quick };
+            std::process::exit(vharness::props::c18::write_transcript(seed, tier, &args[4]));
+        }
         "worker" => {
             std::process::exit(vharness::props::worker(&args[2..]));
         }
